@@ -593,6 +593,7 @@ type c18WriteCase struct {
 	API   string `json:"api"`
 	Call  int    `json:"call"` // 0 = fault-free comparison; -1 = every call; k = fail at call k
 	Short bool   `json:"short,omitempty"`
+	Transient bool `json:"transient,omitempty"` // only that call fails, later writes succeed again
 }
 
 func c18WriteSub() *engine.Sub {
@@ -609,8 +610,8 @@ func c18WriteSub() *engine.Sub {
 	}
 	return &engine.Sub{
 		Name: "writers",
-		Rule: "every streaming encoder (ToSealedWriter, ToDagCborWriter, ToDagJsonWriter on a delegation and an invocation; the four container writers on 0, 1 and 3 tokens): fault-free, the sink receives the buffered API's bytes (same token set for multi-token containers) and the reported CID is the content address of the sink bytes; with a write error (and with a short write) injected at write call i, for every i in [1, N] where N is the number of Write calls of the fault-free run (the last one being the final flush), the call returns an error; non-trivial = executions with an injected fault",
-		Bound: func(string) string { return "18 writer APIs x every write call x {error, short write}" },
+		Rule: "every streaming encoder (ToSealedWriter, ToDagCborWriter, ToDagJsonWriter on a delegation and an invocation; the four container writers on 0, 1 and 3 tokens): fault-free, the sink receives the buffered API's bytes (same token set for multi-token containers) and the reported CID is the content address of the sink bytes; with a write error injected at write call i - sticky (every later write fails too), as a short write, and transient (only that write fails and takes nothing, later writes succeed) - for every i in [1, N] where N is the number of Write calls of the fault-free run (the last one being the final flush), the call returns an error; non-trivial = executions with an injected fault",
+		Bound: func(string) string { return "18 writer APIs x every write call x {sticky error, short write, transient error}" },
 		Setup: setup,
 		Gen: func(tier string, emit func(any) bool) {
 			setup(tier)
@@ -664,11 +665,12 @@ func c18WriteSub() *engine.Sub {
 				lo, hi = cs.Call, cs.Call
 			}
 			for i := lo; i <= hi; i++ {
-				for _, short := range []bool{false, true} {
-					if cs.Call > 0 && short != cs.Short {
+				for mode := 0; mode < 3; mode++ {
+					short, transient := mode == 1, mode == 2
+					if cs.Call > 0 && (short != cs.Short || transient != cs.Transient) {
 						continue
 					}
-					w := &engine.PosWriter{FailCall: i, Short: short}
+					w := &engine.PosWriter{FailCall: i, Short: short, Transient: transient}
 					_, err := api.Stream(w)
 					ctx.Eval(1)
 					ctx.Trans(1)
@@ -686,8 +688,11 @@ func c18WriteSub() *engine.Sub {
 						pos = "last-write"
 					}
 					ctx.Outcome("fault-swallowed")
-					ctx.Failf(&c18WriteCase{API: cs.API, Call: i, Short: short}, "write-fault-swallowed/"+pos+"/"+strings.Split(api.Name, "[")[0],
-						"%s reports success although write call %d of %d failed (short=%v): output was not completely written", api.Name, i, clean.Calls, short)
+					if transient && i != clean.Calls {
+						pos = "transient"
+					}
+					ctx.Failf(&c18WriteCase{API: cs.API, Call: i, Short: short, Transient: transient}, "write-fault-swallowed/"+pos+"/"+strings.Split(api.Name, "[")[0],
+						"%s reports success although write call %d of %d failed (short=%v, later writes succeed=%v): output was not completely written", api.Name, i, clean.Calls, short, transient)
 				}
 			}
 		},
@@ -700,7 +705,7 @@ func C18() *engine.Check {
 		Level:    "model_checking",
 		Subs:     []*engine.Sub{c18ReadSub(), c18WriteSub()},
 		Assumptions: []string{
-			"the harness reader never answers (0, nil); injected faults are sticky (every later call fails too)",
+			"the harness reader never answers (0, nil); injected read faults are sticky (every later call fails too); write faults are injected sticky, short and transient",
 			"multi-token containers are compared as sets because the container writer iterates a Go map",
 			"Ed25519 (deterministic) tokens are used so that streamed and buffered bytes are comparable",
 		},
